@@ -84,6 +84,7 @@ type State struct {
 	EDirty     bool               `json:"edirty"`
 	ERebuild   bool               `json:"erebuilding"`
 	ECP        string             `json:"ecp"`
+	EParent    string             `json:"eparent"` // Info.Parent: the engine's cached parent of the head
 	Punch      bool               `json:"punch"`
 	Dir        *rawfs.Dir         `json:"dir"`
 	HolesQueue int                `json:"-"`
@@ -206,6 +207,7 @@ func (d *drv) project() *State {
 		st.EDirty = info.Dirty
 		st.ERebuild = info.Rebuilding
 		st.ECP = rawfs.Norm(info.Checkpoint)
+		st.EParent = rawfs.Norm(info.Parent)
 		ch, err := r.Chain()
 		if err == nil {
 			for i := len(ch) - 1; i >= 0; i-- {
@@ -807,7 +809,18 @@ func (d *drv) runGenerated(id int, n int, profile string) error {
 			all := d.chain()
 			names := append([]string{"s-unknown"}, all...)
 			// (a target that does not exist would become an image without metadata: outside the model)
-			do(Op{Ev: "ReplaceDisk", Target: all[rng.Intn(len(all))], Source: names[rng.Intn(len(names))]})
+			if len(all) >= 3 && rng.Intn(3) == 0 {
+				// the latest snapshot folded into the one below it, then an attempt on the new latest
+				tgt := all[len(all)-3]
+				do(Op{Ev: "ReplaceDisk", Target: tgt, Source: all[len(all)-2]})
+				if rng.Intn(2) == 0 {
+					do(Op{Ev: "PrepareRemove", Name: tgt})
+				} else {
+					do(Op{Ev: "RemoveDisk", Name: tgt})
+				}
+			} else {
+				do(Op{Ev: "ReplaceDisk", Target: all[rng.Intn(len(all))], Source: names[rng.Intn(len(names))]})
+			}
 		case k < 30 && rng.Intn(10) == 0:
 			do(Op{Ev: "Burst", N: int64(2 + rng.Intn(3))})
 		case k < 30:
@@ -1085,6 +1098,7 @@ func (d *drv) runRebuild(do func(Op)) {
 	src = append(src, "s-"+add)
 	nb := int(d.size())
 	parent := ""
+	allUser := rng.Intn(3) == 0 // every synced snapshot user-created: all of them are retained
 	for i, n := range src {
 		blocks := make([]int, nb)
 		for b := range blocks {
@@ -1093,7 +1107,7 @@ func (d *drv) runRebuild(do func(Op)) {
 			}
 		}
 		wo()
-		do(Op{Ev: "SyncFile", Name: n, Parent: parent, User: rng.Intn(3) == 0, Blocks: blocks})
+		do(Op{Ev: "SyncFile", Name: n, Parent: parent, User: allUser || rng.Intn(3) == 0, Blocks: blocks})
 		parent = n
 	}
 	wo()
@@ -1103,6 +1117,11 @@ func (d *drv) runRebuild(do func(Op)) {
 		do(Op{Ev: "UpdateLUNMap"})
 	} else {
 		do(Op{Ev: "LunMapScan"})
+		// writes between the extent scan and the merge: the merge decides which older copies
+		// of these blocks may be punched out (none at or below the newest user snapshot)
+		for i, n := 0, rng.Intn(4); i < n; i++ {
+			do(d.genWrite(rng.Intn(2) == 0))
+		}
 		wo()
 		if rng.Intn(3) == 0 {
 			do(d.genRead(false))
